@@ -19,7 +19,7 @@ pub fn meta() -> Meta {
     Meta {
         id: "C16",
         level: "exploration",
-        rule: "string-level pack/unpack/reverse-complement model against the real UInt primitives: (a) every string of length k-1 and k for k=5,7,9,11 (thorough: 13) in both widths; (b) for all 30 k and both widths (u64 for k<=31) every string within Hamming distance 2 of the four homopolymers and two mixed backgrounds, at lengths k-1 and k; (c) rolling: for every k a repeat-free sequence of length 4k with an N substituted at every position in turn, plus the k=5 restart family L+N+R: at every window the rolled (k-mer, middle base, strand flag, middle position, hash) equals the model's canonical form and a fresh SplitKmer/NtHashIterator on that window, both strand modes, with and without the read hash; (d) hash(k-mer) = hash(reverse complement) in two-strand mode. Non-trivial = every evaluated string/window (all carry an expected value); distinct outcomes = distinct expected packed values.".into(),
+        rule: "string-level pack/unpack/reverse-complement model against the real UInt primitives: (a) every string of length k-1 and k for k=5,7,9,11 (thorough: 13, 15) in both widths; (b) for all 30 k and both widths (u64 for k<=31) every string within Hamming distance 2 of the four homopolymers and two mixed backgrounds, at lengths k-1 and k; (c) rolling: for every k a repeat-free sequence of length 4k with an N substituted at every position in turn, plus the k=5 restart family L+N+R: at every window the rolled (k-mer, middle base, strand flag, middle position, hash) equals the model's canonical form and a fresh SplitKmer/NtHashIterator on that window, both strand modes, with and without the read hash; (d) hash(k-mer) = hash(reverse complement) in two-strand mode. Non-trivial = every evaluated string/window (all carry an expected value); distinct outcomes = distinct expected packed values.".into(),
         assumptions: vec!["the independent packing convention A=0,C=1,T=2,G=3, first letter most significant, is the documented one".into()],
         exhaustive_when_uncapped: true,
     }
@@ -209,7 +209,7 @@ pub fn run(ctx: &Ctx, rep: &mut Report) {
     let mut idx = 0u64;
     let mut capped = false;
     // (a) complete small k
-    let ks: &[usize] = if thorough { &[5, 7, 9, 11, 13] } else { &[5, 7, 9, 11] };
+    let ks: &[usize] = if thorough { &[5, 7, 9, 11, 13, 15] } else { &[5, 7, 9, 11] };
     for k in ks {
         for len in [k - 1, *k] {
             let km = if len == k - 1 { Some(*k) } else { None };
